@@ -606,6 +606,25 @@ def fam_ctl_core(tier="quick"):
         # a stopped region that comes before a skip_branch in program order: skipping must not leak into the next iteration
         L.append(prog_line(f"ctM{n}", decls, [["sp 1", "sx"] + b0[:1] + ["ex"] + b0[1:] + ["sk", "jn 1"], b1])); n += 1
         L.append(prog_line(f"ctM{n}", decls, [["sp 1"] + b0 + ["jn 1"], ["sx"] + b1[:1] + ["ex"] + b1[1:] + ["sk"]])); n += 1
+    # regions made of RMWs (which read the latest store, so the region has one behaviour) racing with RMWs of
+    # the other thread. The region's thread has an exploring scheduling point just before the region (X, an RMW
+    # on an atomic nobody else touches): whatever is fixed inside the region, the other thread must still be
+    # tried before X -- i.e. before the region as a whole -- and after the region (oracle: R with regions
+    # executed as one block). Without such a point before the region nothing can be demanded: the first
+    # decision would already be inside it.
+    X = "rmw 2 add 1 rlx"
+    rb = [
+        (["rmw 0 add 1 sc", "rmw 1 add 1 sc"], ["rmw 1 add 10 sc"]),
+        (["rmw 0 add 1 sc", "rmw 1 add 1 sc"], ["rmw 1 add 10 sc", "rmw 0 add 10 sc"]),
+        (["cas 0 0 1 sc sc", "rmw 1 add 1 rlx"], ["rmw 1 add 10 rlx"]),
+        (["ld 0 sc", "rmw 1 add 1 sc"], ["rmw 1 add 10 sc"]),
+        (["rmw 1 add 1 sc"], ["rmw 1 add 10 sc"]),
+    ]
+    for b0, b1 in rb:
+        decls = ["A0", "A0", "A0"]
+        L.append(prog_line(f"ctR{n}", decls, [["sp 1", X, "sx"] + b0 + ["ex", "jn 1"], b1])); n += 1
+        L.append(prog_line(f"ctR{n}", decls, [["sp 1", X, "sx"] + b0 + ["ex"] + b0[-1:] + ["jn 1"], b1])); n += 1
+        L.append(prog_line(f"ctR{n}", decls, [["sp 1"] + b1 + ["jn 1"], [X, "sx"] + b0 + ["ex"]])); n += 1
     return L
 
 
